@@ -600,8 +600,23 @@ def check_coverage(ctx):
             ctx.finding(R, fn, f"visibility kind {k} missing", f"no requirement is created for {k} instances")
     # the result must contain every appended requirement
     rets = lib.returns_of(fn)
-    if len(rets) == 1 and unparse(rets[0].value) in ("tuple(requirements)", "requirements", "list(requirements)"):
-        ctx.ok(R, rets[0], "all created requirements are returned")
+    # the accumulator is identified by its role: the receiver of `.append(<SomethingRequirement>(...))`
+    accs, loose = set(), []
+    for c in walk_local(fn):
+        if isinstance(c, ast.Call) and isinstance(c.func, ast.Name) and c.func.id.endswith("Requirement"):
+            pa = parent(c)
+            if isinstance(pa, ast.Call) and isinstance(pa.func, ast.Attribute) and pa.func.attr == "append" and isinstance(pa.func.value, ast.Name) and c in pa.args:
+                accs.add(pa.func.value.id)
+            else:
+                loose.append(c)
+    for c in loose:
+        ctx.finding(R, c, f"requirement not collected {norm_text(c)}", f"`{unparse(c)}` is created but not appended to the list that is returned")
+    if len(accs) == 1 and len(rets) == 1:
+        acc = next(iter(accs))
+        if unparse(rets[0].value) in (f"tuple({acc})", acc, f"list({acc})"):
+            ctx.ok(R, rets[0], "all created requirements are returned")
+        else:
+            ctx.finding(R, fn, "generateDefaultRequirements return", "generateDefaultRequirements does not return the complete list it built")
     else:
         ctx.finding(R, fn, "generateDefaultRequirements return", "generateDefaultRequirements does not return the complete list it built")
 
